@@ -98,6 +98,10 @@ type BackendObs struct {
 	AppHeaders    map[string][]string `json:"app_headers,omitempty"`
 	Panicked      bool                `json:"panicked,omitempty"`
 	Returned      bool                `json:"returned"`
+	Host          string              `json:"host,omitempty"`
+	RequestURI    string              `json:"request_uri,omitempty"`
+	TransferEncoding []string         `json:"transfer_encoding,omitempty"`
+	Flushes       int                 `json:"flushes,omitempty"`
 }
 
 func (b *BackendObs) problem(format string, args ...any) {
@@ -130,6 +134,7 @@ func (h *backendHandler) ServeHTTP(rw http.ResponseWriter, r *http.Request) {
 	}
 	obs.Method, obs.Path, obs.RawPath, obs.RawQuery = r.Method, r.URL.Path, r.URL.RawPath, r.URL.RawQuery
 	obs.Proto, obs.ProtoMajor = r.Proto, r.ProtoMajor
+	obs.Host, obs.RequestURI, obs.TransferEncoding = r.Host, r.RequestURI, append([]string(nil), r.TransferEncoding...)
 	obs.Header = r.Header.Clone()
 	obs.ContentLength = r.ContentLength
 	obs.AppHeaders = appHeaders(r.Header)
@@ -998,6 +1003,7 @@ func (h *backendHandler) writeBody(st *rpcState, obs *BackendObs, rw http.Respon
 		}
 		if rp.FlushEvery > 0 && (i+1)%rp.FlushEvery == 0 && flusher != nil {
 			flusher.Flush()
+			obs.Flushes++
 		}
 		if st.world.Aborting() {
 			return
